@@ -63,6 +63,13 @@ Theorem C19_mapping_flag_values :
 Proof. exact mapping_flag_values. Qed.
 Print Assumptions C19_mapping_flag_values.
 
+(* Go's Decode switches on the whole flag byte, the model on the subflag of a flag of type "mapping"
+   (the only way the block loop calls it): the same test *)
+Theorem C19_mapping_flag_char : forall f : byte, (f < 256)%N -> flag_type f = ft_mapping ->
+  ((N.shiftr f 2 = 0%N \/ N.shiftr f 2 = 1%N \/ N.shiftr f 2 = 3%N) <-> f = 2%N \/ f = 6%N \/ f = 14%N).
+Proof. exact mapping_flag_char. Qed.
+Print Assumptions C19_mapping_flag_char.
+
 Theorem C19_unknown_mapping_flag : forall (f : byte) (b : list byte),
   ~ (N.shiftr f 2 = 0%N \/ N.shiftr f 2 = 1%N \/ N.shiftr f 2 = 3%N) ->
   dec_mapping f b = DErr EUnknownMapping.
